@@ -15,6 +15,7 @@ use super::{
 };
 use crate::{
     interp::{Interpreter, JmpWhen},
+    program::ProgramDetails,
     BindContext, ByteCode, CelError, CelResult, CelValue, CelValueDyn, Program, StringTokenizer,
 };
 
@@ -1302,6 +1303,7 @@ impl<'l> CelCompiler<'l> {
                 loc,
             }) => {
                 let mut bytecode = Vec::<PreResolvedCodePoint>::new();
+                let mut details = ProgramDetails::new();
 
                 for segment in segments.iter() {
                     match segment {
@@ -1313,12 +1315,12 @@ impl<'l> CelCompiler<'l> {
                             let mut comp = CelCompiler::with_tokenizer(&mut tok);
 
                             let (e, _) = comp.parse_expression()?;
+                            let (e_node, e_details) = e.into_parts();
+                            details.union_from(e_details);
 
                             bytecode.push(
-                                ByteCode::Push(CelValue::ByteCode(
-                                    e.into_unresolved_bytecode().resolve(),
-                                ))
-                                .into(),
+                                ByteCode::Push(CelValue::ByteCode(e_node.into_bytecode().resolve()))
+                                    .into(),
                             );
                         }
                     }
@@ -1330,7 +1332,10 @@ impl<'l> CelCompiler<'l> {
                 bytecode.push(ByteCode::FmtString(segments.len() as u32).into());
 
                 Ok((
-                    CompiledProg::with_code_points(bytecode),
+                    CompiledProg::new(
+                        NodeValue::Bytecode(bytecode.into_iter().collect()),
+                        details,
+                    ),
                     AstNode::new(
                         Primary::Literal(LiteralsAndKeywords::FStringList(segments.clone())),
                         loc,
